@@ -19,6 +19,8 @@ func init() {
 		Level: "other",
 		Explanation: "The observable effects of evaluation are calls of VariableFetcher.Get and of operators; where they can happen is structural and is decided: (R-CALLSITES) census of every Get invoke and every dynamic Operator call in Eval: a Get happens only for the current node nodes[i] under kind == variable, or for nodes[i+1] / nodes[i+2] under kind(current) == fastOperator and kind(child) == variable, always with both keys of that same node; an operator is called only as the current node's own operator under kind in {fastOperator, operator, cond}; all sites index the program with the one loop counter of the main loop (no second loop that pre-fetches or speculatively evaluates), no site sits in an inner loop, and the arms are exclusive, so one step performs at most 2 fetches (the fast-operator allowance) and 1 operator call. " +
 			"(R-FASTORDER) in the fast arm the fetch of child 1 cannot follow the fetch of child 2, param2[0]/param2[1] receive child 1 / child 2 (literal or fetched value) and the operator call is dominated by both. (R-CONDJUMP) in the cond arm the jump (i = scIdx, osTop = node.osTop) happens only under operator-result == true; the `if` closure returns the negation of its boolean argument (so 'jump' means 'condition false'), the `fi` closure returns constant true. (R-SCJUMP) the short-circuit jump of the main loop is taken only for a bool result b with (!b && scIfFalse) || (b && scIfTrue). " +
+			"(R-STEPRES) per arm of the main loop the pushed value is exactly the node literal / result #0 of the fetch of that very node / result #0 of the node's own operator applied in that arm, cond and event arms push nothing, the value lands in os[osTop+1] and osTop advances by one, non-error returns yield the pushed value or os[0]; (R-STEPARGS) the operator arm pops exactly childCnt and hands the operator either the two-slot buffer filled from os[osTop-childCnt+1], os[osTop-childCnt+2] (only under childCnt == 2) or a fresh childCnt-long copy of os[osTop-childCnt+1:]. " +
+			"(R-SCFLAGS, R-SCCLIMB, R-FASTLAYOUT, R-KWTYPE) every child of an and/or node gets polarity flag and jump target whatever its own kind; climbing only while the ancestor is decided by every polarity the node carries; all sites agree on the two inlined operands of a fast operator. " +
 			"NOT decided: that the jump targets skip exactly the decided operands and the untaken branch (values of the scIdx/osTop tables computed at compile time), and TryEval's visiting order.",
 		Run:       runC03,
 		Witnesses: c03Witnesses,
@@ -287,6 +289,11 @@ func runC03(w *World, r *Report) {
 	ruleFastOrder(w, r, l, gets, opCalls, kindsOfCurt, k)
 	ruleCondJump(w, r, l, opCalls, kindsOfCurt, k)
 	ruleScJump(w, r, l)
+	ruleStepArgs(w, r, ruleStepRes(w, r, "(*Expr).Eval"))
+	ruleScFlags(w, r)
+	ruleScClimb(w, r)
+	ruleFastLayout(w, r)
+	ruleKwType(w, r)
 }
 
 func ruleFastOrder(w *World, r *Report, l *evalLoop, gets map[string][]*ssa.Call, opCalls []*ssa.Call, kindsOfCurt func(*ssa.BasicBlock) map[int64]bool, k nodeKinds) {
